@@ -302,7 +302,11 @@ func (l listEnviron) Get(name string) Variable {
 	i, ok := slices.BinarySearchFunc(l.pairs, name, func(pair, name string) int {
 		if len(pair) < endpos {
 			// Too short; see if we are before or after the name.
-			return l.compare(pair, name)
+			if c := l.compare(pair, name); c != 0 {
+				return c
+			}
+			// The pair is the name itself, so it sorts before "name=".
+			return -1
 		}
 		// Compare the name prefix, then the equal character.
 		c := l.compare(pair[:eqpos], name)
